@@ -16,7 +16,7 @@ func c15check(c *Ctx, cas c04case, x idx, queries [][2]int, nrefs int, evals, no
 			// header settings vary with the state so that all values are exercised
 			n := len(cas.Recs)
 			t.x.Format = byte(n % 3)
-			t.x.ZeroBased = n%2 == 0
+			t.x.ZeroBased = ((n+2)/3)%2 == 1 // with Format = n%3: n=1,2,3 give the flag with formats 1, 2, 0; n=4,5,6 the same formats without it
 			t.x.NameColumn, t.x.BeginColumn, t.x.EndColumn = 1, int32(2+n%2), int32(n%3)
 			t.x.MetaChar = []rune{'#', '@', 0}[n%3]
 			t.x.Skip = int32(n % 2)
